@@ -18,6 +18,7 @@ use std::collections::{BTreeMap, BTreeSet};
 
 const SIG_SKETCH: &str = "sketch-hamming-cut-drops-matching-frames";
 const SIG_CROWD: &str = "top-k-counts-snippets-not-frames";
+const SIG_CULLED: &str = "chunked-document-with-deleted-chunk-is-culled";
 const TS: i64 = 1_700_000_000;
 /// word index of the planted query word inside a `DocSpec`
 const PLANT: u32 = u32::MAX;
@@ -226,7 +227,7 @@ fn shrink_case(c: &Case, q: &Query, phase: &str) -> Case {
         t.deletes.clear();
         if still_fails(&t, phase) { cur = t; } else { return cur; }
     }
-    let budget = std::cell::Cell::new(70usize);
+    let budget = std::cell::Cell::new(36usize);
     let base = cur.clone();
     let docs = shrink_list(&cur.docs, &mut |d: &[DocSpec]| {
         if budget.get() == 0 { return false; }
@@ -267,6 +268,13 @@ fn run_phase(mem: &mut Memvid, c: &Case, phase: &str, cx: &mut Ctx) -> bool {
     // ground truth: active frames whose searchable text holds the word
     let matching: Vec<u64> = frames.iter().filter(|f| f.status == FrameStatus::Active)
         .filter(|f| f.search_text.as_deref().is_some_and(|t| has_word(t, &c.qword))).map(|f| f.id).collect();
+    // chunked parent documents whose active chunk frames no longer match the manifest: the implementation itself calls
+    // them invalid (frame_canonical_payload fails) and try_tantivy_search skips them ("unable to resolve chunk context")
+    let culled: BTreeSet<u64> = frames.iter().filter(|f| matching.contains(&f.id)).filter(|f| f.chunk_manifest.as_ref().is_some_and(|m| {
+        let kids = frames.iter().filter(|c| c.status == FrameStatus::Active && c.parent_id == Some(f.id) && c.chunk_index.is_some()).count();
+        kids != m.chunks.len()
+    })).map(|f| f.id).collect();
+    if !culled.is_empty() { cx.sum.branch("chunked-parent-with-deleted-chunk"); }
     let track: Vec<(u64, u64, Vec<u8>)> = mem.sketches().iter().map(|e| (e.frame_id, e.simhash, e.term_filter.clone())).collect();
     let variant = format!("{:?}", mem.sketches().variant).to_lowercase();
     let s = &mut *cx.sum;
@@ -336,6 +344,28 @@ fn run_phase(mem: &mut Memvid, c: &Case, phase: &str, cx: &mut Ctx) -> bool {
             println!("  request {}", if line.len() > 600 { format!("{}… ({} bytes)", &line[..600], line.len()) } else { line.clone() });
             println!("  model  {}", model.clone().unwrap_or_else(|| "-".into()));
             println!("  query sketch (impl) {qs_real_s}");
+            for fid in &missing {
+                if let Some(f) = frames.get(*fid as usize) {
+                    println!("    missing frame {fid}: role={:?} parent={:?} chunk_index={:?} chunk_count={:?} manifest={} payload_len={} search_text_len={:?} uri={:?}",
+                        f.role, f.parent_id, f.chunk_index, f.chunk_count, f.chunk_manifest.is_some(), f.payload_length, f.search_text.as_ref().map(|t| t.len()), f.uri);
+                }
+            }
+            for fid in &missing {
+                if let Some(f) = frames.get(*fid as usize) {
+                    let lower = f.search_text.clone().unwrap_or_default().to_ascii_lowercase();
+                    let ev = vh::query_matches(&text, f, &lower);
+                    let occ = vh::collect_token_occurrences(&lower, &toks);
+                    let child = frames.iter().find(|c| c.parent_id == Some(*fid) && c.chunk_index == Some(0)).map(|c| c.id);
+                    let ctext = child.and_then(|c| mem.frame_text_by_id(c).ok()).unwrap_or_default();
+                    let sl = vh::compute_snippet_slices(&ctext, &occ, window, q.top_k.max(1));
+                    let canon = mem.frame_canonical_payload(*fid).map(|b| b.len()).map_err(|e| e.to_string());
+                    println!("    missing frame {fid}: frame_canonical_payload={canon:?} manifest_chunks={:?}", f.chunk_manifest.as_ref().map(|m| m.chunks.len()));
+                    println!("    missing frame {fid}: evaluate={ev:?} occurrences={occ:?} first-child={child:?} child_text_len={} slices={sl:?} toks={toks:?}", ctext.len());
+                }
+            }
+            for f in frames.iter().filter(|f| missing.iter().any(|m| f.parent_id == Some(*m))) {
+                println!("    child frame {}: role={:?} chunk_index={:?} matching={} hit={}", f.id, f.role, f.chunk_index, mset.contains(&f.id), hitset.contains(&f.id));
+            }
             for (id, sh, f) in &track {
                 if mset.contains(id) || cands_real.as_ref().is_some_and(|v| v.contains(id)) {
                     println!("    entry frame={id} simhash={sh} filter={} hamming={} overlap={} matching={}", hexw(f), (sh ^ qs_real.simhash).count_ones(),
@@ -381,8 +411,9 @@ fn run_phase(mem: &mut Memvid, c: &Case, phase: &str, cx: &mut Ctx) -> bool {
                     if m_n != obs.hits.len() { diffs.push(format!("number of hits: model {m_n} impl {}", obs.hits.len())); }
                 } else { s.branch("model-not-determinate"); }
                 // E3 / E1 sanity of the reconstruction: the complete no_sketch result holds every whole-word match
-                if truth.err.is_none() && !mset.is_subset(&truth.frames()) && total_slices <= big {
-                    diffs.push(format!("engine assumption E3: complete no_sketch search {} misses whole-word matches {}", ids(&truth.frames()), ids(&matching)));
+                let expect_truth: BTreeSet<u64> = mset.difference(&culled).copied().collect();
+                if truth.err.is_none() && !expect_truth.is_subset(&truth.frames()) && total_slices <= big {
+                    diffs.push(format!("engine assumption E3: complete no_sketch search {} misses whole-word matches {}", ids(&truth.frames()), ids(&expect_truth)));
                 }
             }
             if !diffs.is_empty() {
@@ -396,19 +427,28 @@ fn run_phase(mem: &mut Memvid, c: &Case, phase: &str, cx: &mut Ctx) -> bool {
         } else if matching.len() <= q.top_k && !missing.is_empty() {
             let what = format!("[{phase}] query {text:?} top_k={} no_sketch={}: {} active frames hold the word ({}), hits only for {} — missing {}",
                 q.top_k, q.no_sketch, matching.len(), ids(&matching), ids(&hitset), ids(&missing));
-            // classification: which mechanism does the model blame for each missing frame?
+            // classification: which mechanism is to blame for each missing frame?  (culled: recomputed from the frame
+            // table, independent of the model; Hamming cut / snippet budget: the model's verdicts)
             let dropped: BTreeSet<u64> = model.as_ref().map(|m| parse_ids(field(m, "dropham")).into_iter().collect()).unwrap_or_default();
             let crowded: BTreeSet<u64> = model.as_ref().map(|m| parse_ids(field(m, "crowded")).into_iter().collect()).unwrap_or_default();
-            let by_sketch = missing.iter().any(|f| dropped.contains(f));
-            let explained = predicted && missing.iter().all(|f| dropped.contains(f) || crowded.contains(f));
-            let sig = if by_sketch || (!q.no_sketch && model.is_none() && truth.frames().is_superset(&mset)) { SIG_SKETCH } else { SIG_CROWD };
-            if by_sketch { s.branch("recall-lost-to-hamming-cut"); }
-            if missing.iter().any(|f| crowded.contains(f)) { s.branch("recall-lost-to-snippet-budget"); }
-            if explained && cx.known.iter().any(|k| k == sig) {
-                s.known_finding(sig, &what, input(q));
+            let mut sigs: BTreeSet<&str> = BTreeSet::new();
+            let mut unexplained: Vec<u64> = vec![];
+            for f in &missing {
+                if culled.contains(f) { sigs.insert(SIG_CULLED); }
+                else if dropped.contains(f) { sigs.insert(SIG_SKETCH); }
+                else if crowded.contains(f) { sigs.insert(SIG_CROWD); }
+                else { unexplained.push(*f); }
+            }
+            if sigs.contains(SIG_SKETCH) { s.branch("recall-lost-to-hamming-cut"); }
+            if sigs.contains(SIG_CROWD) { s.branch("recall-lost-to-snippet-budget"); }
+            if sigs.contains(SIG_CULLED) { s.branch("recall-lost-to-culled-parent"); }
+            let explained = predicted && unexplained.is_empty();
+            if explained && sigs.iter().all(|sg| cx.known.iter().any(|k| k == sg)) {
+                for sg in &sigs { s.known_finding(sg, &what, input(q)); }
             } else {
-                let sg = if explained { sig.to_string() } else { "matching-frame-not-returned".to_string() };
-                let small = if s.oracle_violations.len() < 3 { shrink_case(c, q, phase) } else { let mut one = c.clone(); one.queries = vec![q.clone()]; one };
+                let sg = if explained { sigs.iter().find(|sg| !cx.known.iter().any(|k| k == *sg)).unwrap_or(&"matching-frame-not-returned").to_string() }
+                    else { "matching-frame-not-returned".to_string() };
+                let small = if s.oracle_violations.is_empty() && !cx.verbose { shrink_case(c, q, phase) } else { let mut one = c.clone(); one.queries = vec![q.clone()]; one };
                 let mut j = case_json(&small);
                 j["phase"] = json!(phase);
                 j["original_docs"] = json!(c.docs.len());
@@ -499,15 +539,38 @@ fn gen_case(rng: &mut Rng, index: usize, thorough: bool) -> Case {
     Case { qword, docs, deletes, queries }
 }
 
+/// the recorded witness of `sketch-hamming-cut-drops-matching-frames` (found by the `--hunt` stream, seed 5):
+/// frame 0 (14 words) holds "zorvex", SimHash 33 bits from the query's; frame 1 (11 words) does not, 28 bits
+const WITNESS_SKETCH: (&[u32], &[u32]) = (
+    &[129433, 129174, 129433, 129083, 129384, 129167, 129083, 129111, 129335, 129083, 129083, 129307, 129391, PLANT],
+    &[129118, 129300, 129069, 129370, 129293, 129314, 129391, 129251, 129097, 129160, 129356],
+);
+
 fn fixed_corpus() -> Vec<Case> {
-    let q = |top_k: usize, no_sketch: bool| Query { top_k, no_sketch, snippet: 200, upper: false };
+    let q = |top_k: usize, no_sketch: bool, snippet: usize| Query { top_k, no_sketch, snippet, upper: false };
     let d = |words: Vec<u32>| DocSpec { words, binary: false, ts: TS };
+    let seq = |n: u32, base: u32, plants: &[usize]| { let mut w: Vec<u32> = (0..n).map(|i| base + 7 * i).collect(); for p in plants { w[*p] = PLANT; } d(w) };
     let mut out = vec![];
+    // witness 1: default options return nothing although frame 0 holds the word; no_sketch finds it
+    out.push(Case { qword: "zorvex".into(), docs: vec![d(WITNESS_SKETCH.0.to_vec()), d(WITNESS_SKETCH.1.to_vec())], deletes: vec![],
+        queries: vec![q(10, false, 200), q(10, true, 200)] });
+    // witness 2: two matching documents, top_k = 2; frame 0 has two occurrences more than a snippet window apart, its two
+    // snippets fill the page (pre-filter on or off); top_k = 3 shows both frames
+    out.push(Case { qword: "zorvex".into(), docs: vec![seq(40, 1000, &[2, 36]), seq(40, 5000, &[20])], deletes: vec![],
+        queries: vec![q(2, true, 80), q(2, false, 80), q(3, true, 80)] });
+    // witness 3: a 380-word document is stored as a parent frame (search text = first chunk) + chunk frames; deleting one
+    // chunk frame (frame 3) leaves the parent active but its chunk context unresolvable: the search skips it
+    out.push(Case { qword: "zorvex".into(), docs: vec![d(vec![1, 2, 3]), seq(380, 20000, &[5]), d(vec![4, 5, 6])], deletes: vec![3],
+        queries: vec![q(10, true, 200), q(10, false, 200)] });
     // tiny corpora of the kind the repo's own tests use: nothing is lost
     out.push(Case { qword: "zorvex".into(), docs: vec![d(vec![1, 2, PLANT]), d(vec![3, 4, 5]), d(vec![PLANT, 6])], deletes: vec![],
-        queries: vec![q(10, false), q(10, true), q(2, false)] });
-    // one-letter query word: the sketch tokenizer drops it, so the pre-filter stage finds nothing and is skipped
-    out.push(Case { qword: "x".into(), docs: vec![d(vec![1, 2, PLANT, 9]), d(vec![3, 4, 5])], deletes: vec![], queries: vec![q(10, false), q(10, true)] });
+        queries: vec![q(10, false, 200), q(10, true, 200), q(2, false, 200)] });
+    // one-letter query word: the sketch tokenizer drops it, the query filter is all zero, no entry overlaps, no candidate:
+    // the stage is skipped
+    out.push(Case { qword: "x".into(), docs: vec![d(vec![1, 2, PLANT, 9]), d(vec![3, 4, 5])], deletes: vec![], queries: vec![q(10, false, 200), q(10, true, 200)] });
+    // a frame without text in front (no sketch entry for it) and a deleted matching frame
+    out.push(Case { qword: "zorvex".into(), docs: vec![DocSpec { words: vec![], binary: true, ts: TS }, d(vec![1, PLANT, 3]), d(vec![4, 5, PLANT]), d(vec![7, 8, 9, 10])],
+        deletes: vec![2], queries: vec![q(10, false, 200), q(10, true, 200)] });
     out
 }
 
@@ -515,7 +578,16 @@ fn main() {
     let args = parse_args();
     let use_model = args.driver.to_str() != Some("none");
     let mut drv = if use_model { Some(Driver::spawn(&args.driver).expect("spawn driver")) } else { None };
-    let mut sum = Summary::new("C09", &args, "real .mv2 corpora; see harness/src/bin/c09.rs");
+    let mut sum = Summary::new("C09", &args,
+        "real .mv2 files built with put_bytes + commit: 5 fixed corpora (the two recorded witnesses first) + 9 (quick) / 45 (thorough) generated \
+         corpora of 1-200 documents (120 in the quick tier) over a vocabulary of 50-400 stem-stable pseudo-words, 5-400 tokens per document (long ones are chunked \
+         by the implementation), the query word planted in 5-100% of the documents (sometimes 2-4 times), equal or spread timestamps, optionally a \
+         text-less frame and deletions; per corpus 8 one-word queries (top_k = k, k+1..8, 10, all; snippet 80-400; pre-filter on/off; rarely upper-case), each on the \
+         committing handle and after reopen; compared with the Lean model: query sketch, sketch candidates, hit frames, number of hits; oracle: every \
+         active frame whose search_text holds the word is hit when k <= top_k; non-trivial = k >= 1, k <= top_k, more than one frame; distinct = \
+         phase + query + options + track digest + hits");
+    sum.expect_branches(&["sketch-on", "no-sketch", "phase-live", "phase-reopened", "sketch-filter-applied", "sketch-no-candidates", "recall-complete",
+        "recall-lost-to-hamming-cut", "recall-lost-to-snippet-budget", "recall-lost-to-culled-parent", "chunked-documents", "doc-with-several-slices", "no-match"]);
     let known: Vec<String> = args.extra.get("known").map(|s| s.split(',').map(|x| x.to_string()).collect()).unwrap_or_default();
     if let Some(d) = drv.as_mut() {
         let c = d.ask("consts");
@@ -550,7 +622,7 @@ fn main() {
         }
         sum.finish(&args);
     }
-    let n = if args.thorough { 120 } else { 12 };
+    let n = if args.thorough { 45 } else { 9 };
     {
         let mut cx = Ctx { drv: drv.as_mut(), sum: &mut sum, known, verbose: std::env::var("C09_VERBOSE").is_ok() };
         for c in fixed_corpus() { run_case(&c, &mut cx); }
